@@ -301,3 +301,110 @@ def close_expr(fn, expr, keep=(), depth: int = 4):
         def visit_Lambda(self, node):
             return node
     return T(depth).visit(copy.deepcopy(e))
+
+
+# ---------------------------------------------------------------------------
+# segment streams: one normal form for "turn each (text, style, is_control) segment of <src> into output pieces"
+
+def segment_streams(fn, src_pred=None):
+    """All per-segment emitters in function `fn`, each as (src expr node, paths, anchor node) where paths is a list of
+    (facts dict, emitted expression text or None).  Accepted shapes: a for loop over the segments whose body appends to a
+    list / yields, or a list comprehension / generator expression (filters + element, conditional expressions forked).
+    The segment's fields are renamed to the placeholders TEXT, STYLE, CTRL whether the code unpacks a 3-tuple target or
+    uses attribute access on a single loop variable; single-assignment temporaries are inlined; tests are canonicalised."""
+    import ast as _ast
+    import copy
+    from ..astutil import inline
+    from ..index import AnalysisError, norm, walk_local
+    from ..yieldpaths import Enumerator, Unsupported, canon_test
+    FIELDS = ("text", "style", "is_control")
+    PH = ("TEXT", "STYLE", "CTRL")
+
+    def renamer(target):
+        mapping = {}
+        single = None
+        if isinstance(target, _ast.Tuple) and len(target.elts) == 3:
+            for e, ph in zip(target.elts, PH):
+                if isinstance(e, _ast.Name):
+                    mapping[e.id] = ph
+        elif isinstance(target, _ast.Name):
+            single = target.id
+        else:
+            return None
+
+        class R(_ast.NodeTransformer):
+            def visit_Name(self, node):
+                if node.id in mapping:
+                    return _ast.copy_location(_ast.Name(id=mapping[node.id], ctx=node.ctx), node)
+                return node
+
+            def visit_Attribute(self, node):
+                if single is not None and isinstance(node.value, _ast.Name) and node.value.id == single and node.attr in FIELDS:
+                    return _ast.copy_location(_ast.Name(id=PH[FIELDS.index(node.attr)], ctx=_ast.Load()), node)
+                return self.generic_visit(node)
+        return R(), set(mapping) | ({single} if single else set())
+
+    def retext(r, text):
+        if text is None:
+            return None
+        try:
+            e = _ast.parse(text, mode="eval").body
+        except SyntaxError:
+            return text
+        return norm(r.visit(e))
+
+    streams = []
+    for x in walk_local(fn.node):
+        if isinstance(x, (_ast.ListComp, _ast.GeneratorExp)) and len(x.generators) == 1:
+            ge = x.generators[0]
+            rr = renamer(ge.target)
+            if rr is None or (src_pred is not None and not src_pred(ge.iter)):
+                continue
+            r, bound = rr
+            en = Enumerator(fn.node)
+            en.defs = {k: v for k, v in en.defs.items() if k not in bound}
+            base = []
+            for cond in ge.ifs:
+                base += canon_test(r.visit(copy.deepcopy(inline(cond, en.defs))), True)
+            paths = []
+            for facts, txt in en.forks(x.elt):
+                d = dict(base)
+                for e in facts:
+                    for a, v in canon_test(_ast.parse(retext(r, e[1]), mode="eval").body, e[2]):
+                        d[a] = v
+                paths.append((d, retext(r, txt)))
+            for cond in ge.ifs:
+                paths.append((dict(canon_test(r.visit(copy.deepcopy(inline(cond, en.defs))), False)), None))
+            streams.append((ge.iter, paths, x))
+        elif isinstance(x, _ast.For):
+            rr = renamer(x.target)
+            if rr is None or (src_pred is not None and not src_pred(x.iter)):
+                continue
+            r, bound = rr
+            en = Enumerator(fn.node)
+            en.defs = {k: v for k, v in en.defs.items() if k not in bound}
+            try:
+                bodies = en.block(x.body)
+            except Unsupported as u:
+                raise AnalysisError(f"{fn.fq}: loop over the segments uses a statement outside the path normal form ({u})")
+            paths = []
+            for ev, _t in bodies:
+                d = {}
+                for e in ev:
+                    if e[0] == "cond":
+                        for a, v in canon_test(_ast.parse(retext(r, e[1]), mode="eval").body, e[2]):
+                            d[a] = v
+                emits = []
+                for e in ev:
+                    if e[0] == "do" and ".append(" in e[1]:
+                        c = _ast.parse(e[1], mode="eval").body
+                        if isinstance(c, _ast.Call) and len(c.args) == 1:
+                            emits.append(retext(r, norm(c.args[0])))
+                    elif e[0] == "yield":
+                        emits.append(retext(r, e[1]))
+                if not emits:
+                    paths.append((d, None))
+                for em in emits:
+                    paths.append((d, em))
+            streams.append((x.iter, paths, x))
+    return streams
